@@ -7,7 +7,7 @@ from hypothesis import strategies as st
 from ..core import Result
 from ..exact import Q
 from .. import cfgs, ref, refx
-from .c03 import recompute_route, with_float_fallback
+from .c03 import recompute_route, with_float_fallback, variant_labels
 
 LEVEL = 'exploration'
 RULE = ("Same Config product as C01/C03 (PFI has no loss_bigger_is_better), plus models that ignore a chosen feature subset. An "
@@ -38,9 +38,14 @@ def _run_case(cfg):
     d = cfg['d']
     reads = h.model.reads()
     ignored = [n for i, n in enumerate(h.names) if i not in reads]
+    if cfg['model'].get('positional'):
+        ignored = []          # a positional model has no notion of ignoring a NAMED feature when the key order varies
     some_nonzero = False
     inner2 = False
     prev_row = None
+    pre = h.prefill(ex)
+    if pre:
+        prev_row = pre[-1]
     for t, row in enumerate(cfg['stream']):
         x, y = h.row(row)
         n_inner = row.get('n_inner')
@@ -105,6 +110,7 @@ def _run_case(cfg):
         labels.append('unexplained_extra_features')
     if cfg['loss'].get('offset'):
         labels.append('loss_offset')
+    labels += variant_labels(cfg)
     if cfg['imputer']['kind'] == 'default' or cfg['storage']['cls'] == 'sequence':
         labels.append('recomputed_route')
     if cmp.exactness_lost:
